@@ -311,6 +311,10 @@ def run(cx):
     # ---------------------------------------------------------------------------------------------
     from bits import check_headers
     check_headers(cx, "C16.e", "C16.f")
+    # "rejects missing bytes and never panics": every index/slice range of the readers is within the input on all paths
+    from props.C03 import check_parser
+    check_parser(cx, "C16.g")
+    obligations += len(cx.instances[-1].sites)
     cx.extra["obligations"] = obligations + cx.extra.get("bit_obligations", 0)
 
 
